@@ -1,4 +1,5 @@
 """C16 A library call's result does not depend on the calls made before it (stateful, model = fresh process)."""
+import random
 import re
 
 from hypothesis import strategies as st
@@ -14,7 +15,7 @@ RULE = ("A program is built from 3..6 units over a small pool of generated input
         "heap traffic) in between; validity by construction. The whole program runs in one ASan+UBSan+LSan probe process. "
         "Oracle: every unit is also executed alone in a fresh process; return codes, dumped names/rows, written files (MSF "
         "date/file name normalised) and scores must be equal; LeakSanitizer must be silent when the program ends after the "
-        "final free, and on the un-sanitised build an interposed malloc/free accounting must show that, after a warm-up unit, the program leaves no more than 2 KiB / 8 blocks allocated beyond what was allocated before it (memory parked behind static pointers is invisible to LeakSanitizer). Non-trivial = >= 3 units, >= 2 distinct inputs or configurations and >= 1 interleaving (a step of one "
+        "final free, and on the un-sanitised build an interposed malloc/free accounting must show that, after a warm-up unit, the program leaves no more than 2 KiB / 8 blocks allocated beyond what was allocated before it (memory parked behind static pointers is invisible to LeakSanitizer); in that second run (system allocator, which hands freed blocks out again in a different order - the sanitizer's never does) every unit must again give the result it gives alone. Inputs include records that share a name and 'tie' families (equal lengths, equal names). Non-trivial = >= 3 units, >= 2 distinct inputs or configurations and >= 1 interleaving (a step of one "
         "unit between two steps of another); distinct by hash of the program.")
 ASSUMPTIONS = ["libgomp's thread pool is reachable at exit and therefore not reported by LeakSanitizer",
                "inputs are valid for the calls made on them except in the deliberately rejected unit"]
@@ -31,8 +32,37 @@ def norm_file(fmt, text):
     return text
 
 
+def tie_family(seed, alpha, n, L):
+    """n sequences of one length L: a random ancestor with, per member, 1..2 single-residue deletions each paired with an
+    insertion elsewhere and a few substitutions (co-optimal alignments are common, so tie-breaks decide)"""
+    rnd = random.Random(seed)
+    anc = [rnd.choice(alpha) for _ in range(L)]
+    out = []
+    for _ in range(n):
+        t = list(anc)
+        for _k in range(rnd.randint(1, 2)):
+            if len(t) > 2:
+                del t[rnd.randrange(len(t))]
+                t.insert(rnd.randrange(len(t) + 1), rnd.choice(alpha))
+        for _k in range(rnd.randint(0, 2)):
+            t[rnd.randrange(len(t))] = rnd.choice(alpha)
+        out.append("".join(t))
+    return out
+
+
 @st.composite
 def inputs(draw):
+    if draw(st.integers(0, 5)) == 0:
+        # every tie the library has to break: equal lengths and equal (or only two different) names
+        k, alpha = draw(gen.alphabets())
+        n = draw(st.integers(2, 7))
+        seqs = tie_family(draw(st.integers(0, 2 ** 32 - 1)), alpha[:4] if k == "dna" else alpha[:20], n, draw(st.integers(6, 60)))
+        nm = draw(st.sampled_from(["x", "orgA_copy", "1"]))
+        two = draw(st.booleans())
+        names = [nm if not (two and i % 2) else nm + "b" for i in range(n)]
+        kind = gen.expected_kind(seqs)
+        if kind is not None:
+            return {"names": names, "seqs": seqs, "kind": kind}
     ss = draw(gen.seqsets(max_n=14, max_len=90))
     if ss["kind"] is None:
         ss = draw(gen.seqsets(kind="dna", max_n=8, max_len=40))
@@ -43,6 +73,25 @@ def inputs(draw):
         for _ in range(k):
             seqs.insert(draw(st.integers(0, len(seqs))), "")
     names = draw(gen.names_for(len(seqs), max_len=16, long_names=False))
+    if len(seqs) >= 2 and draw(st.integers(0, 3)) == 0:
+        # records that share a name (files may contain them), some of them also of equal length with different residues:
+        # nothing but the input may break such ties
+        for _ in range(draw(st.integers(1, 3))):
+            i = draw(st.integers(0, len(seqs) - 1))
+            j = draw(st.integers(0, len(seqs) - 1))
+            if i == j or not seqs[i]:
+                continue
+            names[j] = names[i]
+            if draw(st.booleans()):
+                rnd = random.Random(draw(st.integers(0, 2 ** 16)))
+                alpha = sorted(set("".join(seqs))) or ["A"]
+                t = list(seqs[i])
+                for _k in range(1 + len(t) // 8):
+                    t[rnd.randrange(len(t))] = rnd.choice(alpha)
+                old = seqs[j]
+                seqs[j] = "".join(t)
+                if gen.expected_kind(seqs) != ss["kind"]:
+                    seqs[j] = old
     return {"names": names, "seqs": seqs, "kind": ss["kind"]}
 
 
@@ -252,6 +301,26 @@ def check(case):
     hp = runner.run_probe(warm + ["heapmark"] + prog + ["heapmark"], variant="plain", heap=True)
     if hp.ended.bad or hp.steps is None or len(hp.steps) != len(warm) + len(prog) + 2:
         return engine.violation({"what": "process failure in the heap-accounting run", **hp.ended.brief()}, classes=cl, kind="crash")
+    # the same program under the system allocator (the sanitizer's allocator never hands a freed block out again, so
+    # anything that depends on where objects lie in memory can only show here): every unit must again give its result
+    off = len(warm) + 1
+    in_plain = [extract(hp.steps, [off + i for i in pos[u]], per_unit[u][1]) for u in range(len(units))]
+    for ui, u in enumerate(units):
+        if in_plain[ui] == in_prog[ui]:
+            continue
+        lines, keys = unit_steps(u, pool, wd, 0)
+        p2 = runner.run_probe(lines, variant="plain", heap=True)
+        if p2.ended.bad or p2.steps is None or len(p2.steps) != len(lines):
+            return engine.violation({"what": "process failure running unit %d (%s) alone (un-sanitised build)" % (ui, u["kind"]), **p2.ended.brief()}, classes=cl, kind="crash")
+        alone2 = extract(p2.steps, 0, keys)
+        if alone2 != in_plain[ui]:
+            k = [i for i, (a, b) in enumerate(zip(alone2, in_plain[ui])) if a != b]
+            i = k[0] if k else 0
+            return engine.violation({"what": "unit %d (%s) gives a different result inside the program than alone in a fresh process (un-sanitised build, system allocator)" % (ui, u["kind"]),
+                                     "step": keys[i][1][:20], "alone": str(alone2[i])[:400], "in_program": str(in_plain[ui][i])[:400],
+                                     "program": [p.split()[0] for p in prog]}, classes=cl)
+        cl.append("builds_differ(not judged here)")
+    cl.append("system_allocator_run")
     h0, h1 = hp.steps[len(warm)], hp.steps[-1]
     if h0.get("rc") == 0 and h1.get("rc") == 0:
         grown = h1["live_bytes"] - h0["live_bytes"]
